@@ -409,6 +409,19 @@ func (x *Exec) loopEntry(fr *Frame, st *State, h *ssa.BasicBlock, ord int) bool 
 		}
 	}
 	if calls {
+		if _, ok := st.ghost["ycnt"]; ok || st.seqOn {
+			nc := x.d.Fresh("loop_ycnt", "Int")
+			st.assume(Ge(nc, IntLit(0)))
+			st.ghost["ycnt"] = nc
+			for k, v := range st.ghost {
+				if strings.HasPrefix(k, "yseq:") {
+					st.ghost[k] = x.d.Fresh("loop_yseq", v.Sort)
+				}
+			}
+			if _, ok := st.ghost["yerr"]; ok {
+				st.ghost["yerr"] = x.d.Fresh("loop_yerr", "Iface")
+			}
+		}
 		x.havocHeap(st, "loop body calls")
 		st.callsUnknown = true
 	} else if heap {
